@@ -867,6 +867,7 @@ def describe(case, obs):
           'entry_point': case.get('via', 'ctx') + ('+kw' if case.get('kw') else '') + ('+default_final' if case.get('default_final') else ''),
           'second_call': case.get('second', 'repeat'),
           'empty_inputs': case.get('cin_form', 'tuple') + '/' + case.get('shared_form', 'dict'),
+          'disable_jit_leaked_by_debug': bool(obs.get('debug', {}).get('disable_jit_leaked')),
           'leaf_dtypes': '+'.join(sorted({lp.get('dtype', 'f32') for lp in case['prog']['leaves']})),
           'nonfinite_on_padding': any(lp['inv'] for lp in case['prog']['leaves']) or bool(case['prog']['res']['rinv'])}
 
